@@ -12,7 +12,7 @@ import copy
 import json
 
 from ..common import MachineryError, Verdict, require, scratch, seed
-from ..proto import cfg_text, default_corpus, prepare_world, run_drivers_parallel, tlc_proto
+from ..proto import cfg_text, default_corpus, full_corpus, prepare_world, run_drivers_parallel, tlc_proto
 from ..corpus import library
 from .. import common
 
@@ -51,9 +51,9 @@ def collect(tier, tmp, progs, types, mode="ser", rich=True, nfuel=0, ndfuel=0, m
 
 def run(tier, corrupt=False):
     v = Verdict(PROP, tier)
-    progs = default_corpus()
     types = library()
     with scratch("c02-") as tmp:
+        progs = full_corpus(tmp, tier)
         recs, stats = collect(tier, tmp, progs, types, "ser", invariants=("SerLeavesModeAsFound", "PNoSilentFailure"), properties=("PModeRestored",))
         require(stats["action_counts"]["SerStep"] > 0 and stats["action_counts"]["SerReturn"] > 0, "vacuity: serializer actions never fired")
         recs = [r for r in recs if r["kind"] == "ser"]
